@@ -58,7 +58,12 @@ fn mk<FF: Elem>(g: &[String]) -> P<FF> {
     let k = g[0][1..].parse::<usize>().unwrap();
     let mut v: Vec<FF> = elems(&g[1..]);
     v.extend(vec![FF::ZERO; k]);
-    Polynomial::new(v)
+    // storage `b<k>`: the polynomial borrows its coefficients (Polynomial::new_borrowed); `o<k>`: it owns them
+    if g[0].starts_with('b') {
+        Polynomial::new_borrowed(Box::leak(v.into_boxed_slice()))
+    } else {
+        Polynomial::new(v)
+    }
 }
 fn strip<FF: Elem>(c: &[FF]) -> &[FF] {
     let mut n = c.len();
